@@ -121,7 +121,7 @@ def run(ctx: Ctx) -> Collector:
     typer = typer_of(ctx.prog)
     seen = set()
     counts: Dict[str, int] = {}
-    for fi in ctx.prog.all_functions():
+    for fi in analysis_units(ctx.prog):
         if fi.module.name == "mosaik.tiered_time":
             continue
         s = summarise(ctx.prog, fi)
